@@ -50,6 +50,9 @@ def classify(f):
         # known: the payload slice is cut to the peer's maximum and the 3..6 octet header comes on top
         if f.get('payload_len', 10 ** 9) <= f.get('limit', 0) and f.get('enc_len', 0) - f.get('payload_len', 0) <= 6:
             return 'C12-K1'
+        # known: a transaction created before any record of the peer existed never picks one up (looked up once, in SSM.__init__)
+        if not f.get('resp_dir') and f.get('no_record_at_submit'):
+            return 'C12-K4'
         # known: a response is sized by the I-Am value when that is larger than the request's own limit
         if f.get('resp_dir') and f.get('sender_iam_value') is not None and f['sender_iam_value'] > f.get('limit', 0) \
                 and f.get('enc_len', 0) <= f['sender_iam_value'] + 6:
